@@ -644,6 +644,18 @@ func (e *c19Env) traceAndFaults(r *Rng) {
 		cs.Fault, cs.WritesBefore = f, wb
 		jobs = append(jobs, e.faultPrepare(cs, old, oldExists))
 	}
+	// second scenario: the very first save (no settings file yet; "old" = no file)
+	first := c19Case{Kind: "fault", Old: nil, Save: &save}
+	_, _, newFirst, err := e.faultBase(first)
+	nMain := len(jobs)
+	if err == nil {
+		for _, f := range []string{fmt.Sprintf("write-error:%d", wb+1), fmt.Sprintf("kill-at-write:%d", wb+1), "kill-at-rename:1",
+			"fsize:0", fmt.Sprintf("fsize:%d", 1+r.Intn(len(newFirst)-1)), fmt.Sprintf("fsize-kill:%d", r.Intn(len(newFirst)))} {
+			cs := first
+			cs.Fault, cs.WritesBefore = f, wb
+			jobs = append(jobs, e.faultPrepare(cs, nil, false))
+		}
+	}
 	var wg sync.WaitGroup
 	sem := make(chan bool, 12)
 	for _, j := range jobs {
@@ -656,8 +668,13 @@ func (e *c19Env) traceAndFaults(r *Rng) {
 		}(j)
 	}
 	wg.Wait()
-	for _, j := range jobs {
-		e.faultJudge(j, newb)
-		c.Res.Count("fault:"+j.cs.Fault, true)
+	for i, j := range jobs {
+		if i < nMain {
+			e.faultJudge(j, newb)
+			c.Res.Count("fault:"+j.cs.Fault, true)
+		} else {
+			e.faultJudge(j, newFirst)
+			c.Res.Count("fault-first-save:"+j.cs.Fault, true)
+		}
 	}
 }
